@@ -43,6 +43,7 @@ class Results:
         self.config = config
         self.notes = []
         self.floors = []   # (rule, what, count, floor)
+        self.broken = []   # messages of rules that could not analyse the code (AnalysisBroken)
 
     def ob(self, rule, fn, node, what, ok, detail='', key=None, witness=None, file=None, line=None):
         if fn is not None and not isinstance(fn, str):
@@ -68,6 +69,7 @@ class Results:
         self.obs.extend(other.obs)
         self.notes.extend(other.notes)
         self.floors.extend(other.floors)
+        self.broken.extend(other.broken)
 
 
 def load_known():
@@ -177,7 +179,12 @@ def finish(prop, tier, results, t0, explanation, trusted_base, assumptions, chec
     with open(os.path.join(OUT, 'evidence', prop + '.json'), 'w') as fh:
         json.dump(ev, fh, indent=1)
 
-    if broken:
+    seen_b = set()
+    for msg in results.broken:
+        if msg not in seen_b:
+            seen_b.add(msg)
+            print('ANALYSIS-BROKEN property=%s: %s' % (prop, msg))
+    if broken or results.broken:
         for (r, w, c, f) in broken:
             print('ANALYSIS-BROKEN property=%s rule=%s: %s: %d instances, floor %d' % (prop, r, w, c, f))
         # a violated obligation is a fact about a construct that exists; the floors only guard against
